@@ -132,10 +132,10 @@
 // fail_if_error() is used in parser actions for aborting the parsing if an
 // error has occurred. See fail_with_error for details.
 #define fail_if_error(e) \
-    if (e != ERROR_SUCCESS && e != ERROR_UNKNOWN_ESCAPE_SEQUENCE) \
-    { \
-      fail_with_error(e); \
-    }
+    { int fail_if_error_e_ = (e); \
+      if (fail_if_error_e_ != ERROR_SUCCESS && \
+          fail_if_error_e_ != ERROR_UNKNOWN_ESCAPE_SEQUENCE) \
+      { fail_with_error(fail_if_error_e_); } }
 
 
 // check_type(expression, EXPRESSION_TYPE_INTEGER | EXPRESSION_TYPE_FLOAT) is
